@@ -217,7 +217,9 @@ func (r *router) addRoute(method, routePath string, handler route.Handler) *Rout
 			panic(fmt.Sprintf("unable to add route %q with method %s: %v", routePath, m, err))
 		}
 
-		if leaf.Static() {
+		// A route with an optional segment matches two different paths and neither of
+		// them is the text of the route, so it cannot be served by the fast path.
+		if leaf.Static() && !ast.Segments[len(ast.Segments)-1].Optional {
 			r.staticRoutes[m][leaf.Route()] = leaf
 		}
 		leaves[m] = leaf
